@@ -42,7 +42,15 @@ impl Prop for Sources {
 
 impl RandomProp for Sources {
     fn strategy(_env: &Env) -> BoxedStrategy<SrcCase> {
-        (file_model(6, 4, 6), proptest::collection::vec(1usize..12, 1..6))
+        let model = prop_oneof![
+            11 => file_model(6, 4, 6),
+            // one file in twelve holds a record with 130-200 points in a part, or 257-300 parts
+            1 => (vlib::gen::ty14(), any::<bool>()).prop_flat_map(|(ty, many_parts)| {
+                let g = if many_parts { vlib::gen::fgeom_sized(ty, 257..=300, 0..=2) } else { vlib::gen::fgeom_sized(ty, 1..=2, 130..=200) };
+                proptest::collection::vec(g, 1..=2).prop_map(move |geoms| FileModel::simple(ty, geoms))
+            }),
+        ];
+        (model, proptest::collection::vec(1usize..12, 1..6))
             .prop_filter_map("at least one record", |(mut model, chunks)| {
                 if model.recs.is_empty() {
                     return None;
